@@ -149,6 +149,12 @@ static void setup_inputs(void) {
 	else if (strcmp(size_cls, "cap") == 0) bits = (size_t)(RLC_BN_SIZE / 2) * RLC_DIG;
 	else if (strcmp(size_cls, "cap1") == 0) bits = (size_t)(RLC_BN_SIZE / 2) * RLC_DIG + 1;
 	for (int i = 0; i < NB; i++) {
+#if ALLOC == DYNAMIC
+		/* every run starts from objects of the initial allocation size: an object enlarged by an earlier run
+		 * would not need the realloc whose failure is to be injected */
+		bn_free(B[i]); bn_new(B[i]);
+		bn_free(R[i]); bn_new(R[i]);
+#endif
 		rnd_bn(B[i], bits);
 		bn_zero(R[i]);
 	}
@@ -230,6 +236,30 @@ OP(bn_lsh) {
 	if (sh < 0) sh = 0;
 	W(bn_lsh(R[0], B[0], (uint_t)sh)); out_bn(R[0]);
 }
+/* growth at the digit capacity: operands that occupy every digit of an integer object (all ones, or a seeded
+ * value with the top bit set), so that a carry / one more bit needs a digit beyond the capacity - a precision
+ * error with static allocation, a realloc (which may fail, leaving the operand intact) with dynamic allocation */
+static void full_capacity(bn_t m, int ones) {
+	bn_grow(m, RLC_BN_SIZE);
+	for (size_t i = 0; i < RLC_BN_SIZE; i++) m->dp[i] = ones ? ~(dig_t)0 : (B[i % NB]->dp[0] | 1);
+	m->dp[RLC_BN_SIZE - 1] |= (dig_t)1 << (RLC_DIG - 1);
+	m->used = RLC_BN_SIZE;
+	m->sign = RLC_POS;
+}
+OP(bn_grow_add) { full_capacity(R[1], (int)(B[6]->dp[0] & 1)); full_capacity(R[2], 1); W(bn_add(R[0], R[1], R[2])); out_bn(R[0]); }
+OP(bn_grow_add_dig) { full_capacity(R[1], 1); W(bn_add_dig(R[0], R[1], 1 + (B[6]->dp[0] & 7))); out_bn(R[0]); }
+OP(bn_grow_mul_dig) { full_capacity(R[1], (int)(B[6]->dp[0] & 1)); W(bn_mul_dig(R[0], R[1], 2 + (B[6]->dp[0] & 0xFF))); out_bn(R[0]); }
+OP(bn_grow_dbl) { full_capacity(R[1], (int)(B[6]->dp[0] & 1)); W(bn_dbl(R[0], R[1])); out_bn(R[0]); }
+OP(bn_grow_sub_neg) { full_capacity(R[1], 1); full_capacity(R[2], 0); bn_neg(R[2], R[2]); W(bn_sub(R[0], R[1], R[2])); out_bn(R[0]); }
+/* in place: the operand itself must grow; whatever happens it must stay a usable integer */
+OP(bn_grow_lsh_inplace) {
+	bn_copy(R[1], B[0]);
+	W(bn_lsh(R[1], R[1], (uint_t)((long)RLC_BN_SIZE * RLC_DIG - (long)bn_bits(B[0]) + 1 + (long)(B[6]->dp[0] % 130))));
+	out_bn(R[1]);
+	bn_add_dig(R[1], R[1], 1); out_bn(R[1]);
+}
+OP(bn_grow_add_inplace) { full_capacity(R[1], 1); W(bn_add_dig(R[1], R[1], 5)); out_bn(R[1]); bn_rsh(R[1], R[1], 3); out_bn(R[1]); }
+
 /* divisor / modulus of a seeded shorter length (all B[i] of a class have the same length, which would make
  * every quotient trivial): R[3] = B[2] shifted right by a seeded share of its length, kept odd and >= 3 */
 static void short_modulus_of(int shares) {
@@ -905,7 +935,8 @@ OP(pc_param_set_any) { int r = 0; W(r = pc_param_set_any()); out_int(r); ep_curv
 #define E(N, PC) { #N, op_##N, PC }
 static const op_t ops[] = {
 	E(bn_add, 0), E(bn_sub, 0), E(bn_mul_basic, 0), E(bn_mul_comba, 0), E(bn_mul_karat, 0), E(bn_sqr_basic, 0),
-	E(bn_sqr_comba, 0), E(bn_sqr_karat, 0), E(bn_lsh, 0), E(bn_div_rem, 0), E(bn_div, 0), E(bn_mod_basic, 0),
+	E(bn_sqr_comba, 0), E(bn_sqr_karat, 0), E(bn_lsh, 0), E(bn_grow_add, 0), E(bn_grow_add_dig, 0), E(bn_grow_mul_dig, 0),
+	E(bn_grow_dbl, 0), E(bn_grow_sub_neg, 0), E(bn_grow_lsh_inplace, 0), E(bn_grow_add_inplace, 0), E(bn_div_rem, 0), E(bn_div, 0), E(bn_mod_basic, 0),
 	E(bn_mod_barrt, 0), E(bn_mod_monty, 0), E(bn_mod_inv, 0), E(bn_mxp_basic, 0), E(bn_mxp_slide, 0),
 	E(bn_mxp_monty, 0), E(bn_mxp_dig, 0), E(bn_mxp_sim, 0), E(bn_srt, 0), E(bn_gcd_basic, 0), E(bn_gcd_lehme, 0),
 	E(bn_gcd_binar, 0), E(bn_gcd_ext_basic, 0), E(bn_gcd_ext_lehme, 0), E(bn_gcd_ext_binar, 0), E(bn_gcd_ext_mid, 0),
@@ -1068,6 +1099,15 @@ static void run_op(const op_t *op, const uint8_t *seed, size_t seed_len, uint64_
 	WIN_OFF();
 	sim_alloc.fail_at[0] = sim_alloc.fail_at[1] = 0;
 	sim_alloc.fill_on = 0;
+	/* whatever the call reported, every integer object the caller handed in is still a readable object */
+	{
+		volatile size_t acc = 0;
+		for (int i = 0; i < NB; i++) {
+			acc += bn_bits(B[i]) + bn_bits(R[i]);
+			if (R[i]->used > 0) acc += (size_t)R[i]->dp[0];
+		}
+		(void)acc;
+	}
 }
 
 static void engine_run(void) {
